@@ -22,7 +22,9 @@ place_demo() { # $1 = tree
 }
 run_demo() { # $1 = tree
   sub=$(place_demo "$1")
-  if [ -f "$SRC/demo_test.go" ]; then (cd "$1/$sub" && go test -vet=off -count=1 -run . . >"$LOG.demo" 2>&1)
+  # only the demonstration's own tests: the package's pinned tests include wall-clock flakes
+  PAT=$(grep -o '^func Test[A-Za-z0-9_]*' "$SRC/demo_test.go" 2>/dev/null | sed 's/^func //' | paste -sd'|'); PAT="^(${PAT:-.})\$"
+  if [ -f "$SRC/demo_test.go" ]; then (cd "$1/$sub" && go test -vet=off -count=1 -run "$PAT" . >"$LOG.demo" 2>&1)
   else (cd "$1/$sub" && go run . >"$LOG.demo" 2>&1); fi
   rc=$?; rm -rf "$1/$sub/zz_demo_test.go" "$1/zzdemo"; return $rc
 }
